@@ -75,10 +75,20 @@ Definition st_inst st v := {| disp_of := disp_of st; reg := reg st; next_id := n
 
 Definition res_eqb (a b : res) : bool :=
   match a, b with
-  | RFlag, RFlag | RFd, RFd | RArcPending, RArcPending | RArcWrite, RArcWrite | RInstance, RInstance => true
+  | RAction, RAction | RFlag, RFlag | RFd, RFd | RArcPending, RArcPending | RArcWrite, RArcWrite | RInstance, RInstance => true
   | _, _ => false
   end.
-Definition has_res (r : res) (l : list res) : bool := existsb (res_eqb r) l.
+Fixpoint has_res (r : res) (l : list res) : bool :=
+  match l with
+  | [] => false
+  | x :: t => if res_eqb r x then true else has_res r t
+  end.
+(** append on resource lists (kept apart from [++] on ids / slots, which the proofs keep folded) *)
+Fixpoint rcat (a b : list res) : list res :=
+  match a with
+  | [] => b
+  | x :: t => x :: rcat t b
+  end.
 Fixpoint remove_one (r : res) (l : list res) : list res :=
   match l with
   | [] => []
@@ -115,7 +125,11 @@ Definition exec_sop (o : os) (k : fdkind) (sig : Z) (call : fn_id -> frame -> st
       | Exit r fr' st' => Exit r fr' st'
       | Next fr' st' => stuck fr' st'
       end
-  | OEnsureGlobals | OArcFromAction | OLockData | OFallbackLock | OMutexLock | OSendProbe => Next fr st
+  | OEnsureGlobals | OLockData | OFallbackLock | OMutexLock | OSendProbe => Next fr st
+  | OArcFromAction =>     (* the `action: F` parameter (if the caller handed one in) now lives in the Arc *)
+      if has_res RAction (f_locals fr)
+      then Next (set_action (set_locals fr (remove_one RAction (f_locals fr))) (rcat (f_action fr) [RAction])) st
+      else Next fr st
   | OBuildInstance => Next fr (st_inst st [])      (* a new DeliveryState: no signal added yet *)
   | OCloneData => Next (set_clone fr (Some (reg st, next_id st))) st
   | OReadNextId => match f_clone fr with Some (_, n) => Next (set_id fr (Some n)) st | None => stuck fr st end
@@ -152,16 +166,16 @@ Definition exec_sop (o : os) (k : fdkind) (sig : Z) (call : fn_id -> frame -> st
   | OReturnOkUnit => Exit OkUnit fr st
   | OReturnOkInstance => Exit OkUnit (set_locals fr (remove_one RInstance (f_locals fr))) st
   | OCapture r => if has_res r (f_locals fr)
-                  then Next (set_action (set_locals fr (remove_one r (f_locals fr))) (f_action fr ++ [r])) st
+                  then Next (set_action (set_locals fr (remove_one r (f_locals fr))) (rcat (f_action fr) [r])) st
                   else Next fr st
-  | OCloneArc r => Next (set_locals fr (f_locals fr ++ [r])) st
+  | OCloneArc r => Next (set_locals fr (rcat (f_locals fr) [r])) st
   | OPrecheckSignalName => if known sig then Next fr st else Exit (Err (EPrecheck EINVAL)) fr st
   | OWakeFdNew => if has_res RFd (f_raw fr) && wakefd_drop_closes
-                  then Next (set_locals (set_raw fr (remove_one RFd (f_raw fr))) (f_locals fr ++ [RFd])) st
+                  then Next (set_locals (set_raw fr (remove_one RFd (f_raw fr))) (rcat (f_locals fr) [RFd])) st
                   else Next fr st
   | OSetFlags q => match k with FdBad => if q then Exit (Err EFd) fr st else Next fr st | _ => Next fr st end
   | OIntoRawFd => if has_res RFd (f_locals fr)
-                  then Next (set_raw (set_locals fr (remove_one RFd (f_locals fr))) (f_raw fr ++ [RFd])) st
+                  then Next (set_raw (set_locals fr (remove_one RFd (f_locals fr))) (rcat (f_raw fr) [RFd])) st
                   else Next fr st
   | OAssertNonneg => if sig <? 0 then Exit (Panic PAssertNonneg) fr st else Next fr st
   | OAssertLtMax => if as_usize sig <? MAX_SIGNUM then Next fr st else Exit (Panic PAssertLtMax) fr st
@@ -175,7 +189,7 @@ Definition exec_sop (o : os) (k : fdkind) (sig : Z) (call : fn_id -> frame -> st
       if (as_usize sig <? MAX_SIGNUM) && ids_table_len_is_max
       then Next fr (st_inst st (inst st ++ [sig]))
       else Exit (Panic PIndex) fr st
-  | OSocketPair _ => Next (set_locals fr (f_locals fr ++ [RInstance])) st
+  | OSocketPair _ => Next (set_locals fr (rcat (f_locals fr) [RInstance])) st
   end.
 
 Fixpoint exec_sops (o : os) (k : fdkind) (sig : Z) (call : fn_id -> frame -> state -> step)
@@ -256,9 +270,9 @@ Definition action_kept (fr : frame) : bool :=
 
 Definition finish (s : step) : result :=
   match s with
-  | Exit r fr st => (r, st, f_locals fr ++ (if action_kept fr then [] else f_action fr),
+  | Exit r fr st => (r, st, rcat (f_locals fr) (if action_kept fr then [] else f_action fr),
                      (if action_kept fr then f_action fr else []), f_raw fr)
-  | Next fr st => (Panic PStuck, st, f_locals fr ++ f_action fr, [], f_raw fr)
+  | Next fr st => (Panic PStuck, st, rcat (f_locals fr) (f_action fr), [], f_raw fr)
   end.
 
 Definition call_depth : nat := 10.
